@@ -103,6 +103,7 @@ func profileFor(prop string, tier string) *Profile {
 		// transaction or a discarded proposal may have left in memory, and must keep agreeing
 		p.Replicas, p.NodeFaults = 1, true
 	case "C15":
+		p.W["feegrant"] = 2
 		p.Export = true
 		p.Dt = dtMixed
 		p.W["gov"] = 5
@@ -598,7 +599,13 @@ func (g *Gen) genTx(w *World) []TxSpec {
 		return []TxSpec{g.wrap(w, MsgSpec{T: t, A: a, Amt: u64s(uint64(1000 + g.R.Intn(1000000))), Denom: w.T.Knobs.BondDenom})}
 	case "feegrant":
 		a := g.actor()
-		return []TxSpec{g.wrap(w, MsgSpec{T: "feegrant.grant", A: a, B: g.otherActor(a)})}
+		m := MsgSpec{T: "feegrant.grant", A: a, B: g.otherActor(a)}
+		if g.Prop == "C15" && g.pct(70) {
+			// an allowance with an expiry date, as wallets usually grant them
+			m.N = uint64(w.Now.Unix() + pick(g.R, []int64{90, 600, 3600, 86400}))
+			w.Fault("input.feegrant_with_expiry")
+		}
+		return []TxSpec{g.wrap(w, m)}
 	case "attack":
 		return []TxSpec{g.attackTx(w)}
 	case "grp":
